@@ -271,6 +271,7 @@ type RigR struct {
 	mapSeen   map[string]string                  // channel assignment table as first observed (C16: an assignment never changes)
 	noteMu    sync.Mutex
 	lockOrder map[string][]lockNote // downstream channel -> closing ticks in the order computed under the channel lock
+	fwdPacks  map[string]bool       // "collection|source pchannel|end message id" of packs observed taking the forward path (hook H15)
 }
 
 func loadOrGenR(plan *Plan) *RScript {
@@ -422,7 +423,15 @@ func (r *RigR) run() {
 	}
 	r.lockOrder = map[string][]lockNote{}
 	r.resets = map[*msgstream.MsgPack][][2]uint64{}
+	r.fwdPacks = map[string]bool{}
 	reader.VerifNote = func(point, ch string, a uint64, ref any) {
+		if point == "pack:forward" {
+			if mp, _ := ref.(*msgstream.MsgPack); mp != nil && len(mp.EndPositions) > 0 {
+				r.noteMu.Lock()
+				r.fwdPacks[fmt.Sprintf("%d|%s|%d", int64(a), ch, MsgIDToSeq(mp.EndPositions[0].MsgID))] = true
+				r.noteMu.Unlock()
+			}
+		}
 		if point == "pack:reset" {
 			mp, _ := ref.(*msgstream.MsgPack)
 			r.noteMu.Lock()
